@@ -6,7 +6,7 @@ PROP = dict(
     bounded_budget=dict(quick=45, thorough=420),
     assumptions=[],
     trusted_base=['z3 5.1 / cvc5 1.0.3', 'pyvc symbolic executor and its encoding of Python (DESIGN.md section 2.3)', 'CPython 3.12, PLY 3.11 (A-PLY)'],
-    manifest=dict(text='Deductive core (tier P, 20 obligations): mk_linked/subsuper/simple_association pass exactly the modelled ends, multiplicities, conditionality and phrases to define_association; _get_data_type_name; _get_related_attributes pairs referential and identifying names row by row. Bounded: every single edit (rename/retype/reorder attribute, Mult/Cond, phrases, component restriction, row order) at every site of the repository test models and synthesised class diagrams (<=3 classes, <=3 relationships, 16 cardinality combinations), compared with an independent walk of the BridgePoint model; SQL schema reload.',
+    manifest=dict(text='Deductive core (tier P, 29 obligations): get_attribute_type, is_global, get_defining_component, is_contained_in against recursive spec functions; mk_linked/subsuper/simple_association pass exactly the modelled ends, multiplicities, conditionality and phrases to define_association; _get_data_type_name; _get_related_attributes pairs referential and identifying names row by row. Bounded: every single edit (rename/retype/reorder attribute, Mult/Cond, phrases, component restriction, row order) at every site of the repository test models and synthesised class diagrams (<=3 classes, <=3 relationships, 16 cardinality combinations), compared with an independent walk of the BridgePoint model; SQL schema reload.',
                   note='R103 chains acyclic; os/zip access (A-IO).',
                   technique='bounded stand-in (run-time contracts on the real functions driven by small-scope enumeration; labelled bounded, never counted as proved) decides the property sentence; contract-based deductive verification: sidecar contracts on the real functions, verification conditions generated from the current source of /repo on every run by pyvc (Python AST -> z3/cvc5), every obligation discharged function by function for the listed kernel functions, reported separately as tier P'),
 )
